@@ -31,9 +31,15 @@ func main() {
 	replay := flag.String("replay", "", "replay a violation file")
 	jobs := flag.Int("jobs", 0, "worker processes (default: min(16, NumCPU))")
 	list := flag.Bool("list", false, "list properties")
+	dump := flag.String("dumpref", "", "dump reference-model pairs for conformance replay (debian|...)")
+	dumpMax := flag.Int("dumpmax", 700, "max universe size for -dumpref")
 	flag.Parse()
 	if r := os.Getenv("VERIF_ROOT"); r != "" {
 		root = r
+	}
+	if *dump != "" {
+		dumpRef(*dump, *dumpMax)
+		return
 	}
 	if *list {
 		for _, id := range core.IDs() {
@@ -196,6 +202,25 @@ func runParent(p *core.Prop, fs *findings.Set, tier string, jobs int) int {
 		}
 	}
 
+	var conformance map[string]any
+	if p.Conformance != "" {
+		if tier == "thorough" || os.Getenv("VERIF_CONFORMANCE") != "" {
+			arg := p.ConformanceArgs[tier]
+			o, err := exec.Command(filepath.Join(root, p.Conformance), arg).CombinedOutput()
+			lines := strings.Split(strings.TrimSpace(string(o)), "\n")
+			last := lines[len(lines)-1]
+			conformance = map[string]any{"script": p.Conformance, "result": last}
+			if err != nil || !strings.Contains(last, "disagreements=0") {
+				tail := lines
+				if len(tail) > 12 {
+					tail = tail[len(tail)-12:]
+				}
+				res.Internalf("reference model disagrees with the upstream tool (this is a defect of the checker's model, not of the repository): %s", strings.Join(tail, " | "))
+			}
+		} else {
+			conformance = map[string]any{"script": p.Conformance, "result": "not run in the quick tier (run by thorough)"}
+		}
+	}
 	exhaustive := len(res.Incomplete) == 0 && len(res.Internal) == 0
 	cov := map[string]any{}
 	if p.Finalize != nil {
@@ -246,6 +271,9 @@ func runParent(p *core.Prop, fs *findings.Set, tier string, jobs int) int {
 		kf[id] = map[string]any{"cases": n, "witness": w.Inputs, "got": w.Got}
 	}
 	cov["known_findings"] = kf
+	if conformance != nil {
+		cov["oracle_conformance"] = conformance
+	}
 	cov["active_known_findings"] = fs.Active(p.ID)
 	sets := map[string]any{}
 	for k, m := range res.Sets {
